@@ -136,14 +136,23 @@ pub fn handles_case(d: &[u8]) -> Result<(), String> {
     } else {
         let append = which % 4 == 1;
         let mut script = vec![];
-        while b.left() >= 4 && script.len() < 24 {
+        while b.left() >= 4 && script.len() < 16 {
             script.push(match b.u8() % 7 {
                 0..=3 => WOp::Write(data(&mut b)),
                 4 | 5 => WOp::Seek(whence(&mut b), off(&mut b)),
                 _ => WOp::Flush,
             });
         }
-        c14::test_write(&c14::WriteCase { cfg, initial: content, append, in_lower, script }, &mut st, false).map_err(|f| f.message)
+        let mut second = vec![];
+        let split = b.u8();
+        while b.left() >= 4 && second.len() < 6 {
+            second.push(match b.u8() % 7 {
+                0..=3 => WOp::Write(data(&mut b)),
+                4 | 5 => WOp::Seek(whence(&mut b), off(&mut b)),
+                _ => WOp::Flush,
+            });
+        }
+        c14::test_write(&c14::WriteCase { cfg, initial: content, append, in_lower, script, second, split }, &mut st, false).map_err(|f| f.message)
     }
 }
 
